@@ -370,7 +370,9 @@ class CurveEngine:
             for r in outs:
                 if isinstance(r, self.Curve) and not any(r is c for c in world):
                     self.add(ctx, r, "returned-by-" + label)
-        ctx.log(kind, label, "ok" if exc is None else "raise:" + type(exc).__name__, len(self.world))
+        # after an injected environment fault the type of the exception that surfaces from numpy's object loops
+        # is not stable (SystemError / AttributeError / the injected one): it is neither judged nor logged
+        ctx.log(kind, label, "ok" if exc is None else ("raise:env-fault" if fired else "raise:" + type(exc).__name__), len(self.world))
         st = self.alpha(a) if a.ctrlpoints is not None else None
         if st is not None:
             ctx.state((kind, exc is None, a.degree, a.weights is not None, self.cfg["profile"]))
